@@ -18,6 +18,8 @@ BRACKET_NAMES = ['a b', 'x.y', 'a]b', '1st', 'a', 'Ünï', 'a[b', 'a\\b', 'x y z
 # number literals beyond the double range (the literal denotes what float() makes of its text); only where a check asks for them
 OVERFLOW_NUMBER_TEXTS = ['1e+999', '2e+308', '1' + '0' * 310, '9e+308', '1.8e+308']
 WIDE = {'numbers': False}
+# an explicit plus sign is part of the number literal (operand position only: after an operand the same text is a binary plus)
+SIGNED_NUMBER_TEXTS = ['+5', '+0.5', '+1e+3', '+007', '+0', '+12.']
 
 
 def quote_single(value, rnd=None):
@@ -61,6 +63,8 @@ def gen_leaf(rnd, idents=IDENTS):
     k = rnd.random()
     if k < 0.3:
         t = rnd.choice(OVERFLOW_NUMBER_TEXTS) if WIDE['numbers'] and rnd.random() < 0.1 else rnd.choice(NUMBER_TEXTS)
+        if rnd.random() < 0.12:
+            t = rnd.choice(SIGNED_NUMBER_TEXTS)
         return ('num', t, float(t))
     if k < 0.45:
         v = rnd.choice(STRING_VALUES)
